@@ -69,7 +69,7 @@ def impl_eval(case, time=None):
     return impl.eval_offline_discrete(text, case["decl"], case["data"], case["n"], time=time)
 
 
-def check_case(ctx, case, model_off, model_rho):
+def check_case(ctx, case, model_off, model_rho, model_gen=None):
     """Returns (violation | None, diff | None)."""
     f, n, data = case["f"], case["n"], case["data"]
     out = impl_eval(case)
@@ -107,6 +107,10 @@ def check_case(ctx, case, model_off, model_rho):
     if model_off[0] != "ok" or not same_vals(vals, model_off[1]):
         return None, Violation("mirror evalOff differs from the implementation (which agrees with rho): %s" % text, rep,
                                failing_input=False, stream="off-d/mirror")
+    if model_gen is not None and (model_gen[0] != "ok" or not same_vals(vals, model_gen[1])):
+        return None, Violation("the visit methods translated from the source (run under the Lean semantics of the Python subset) give "
+                               "%r, the implementation %r: %s" % (model_gen, vals, text), dict(rep, model_generated=model_gen),
+                               failing_input=False, stream="off-d/translated")
     return None, None
 
 
@@ -136,17 +140,19 @@ def explore(ctx, rng, count, label):
     for c in cases:
         lines.append(proto_case("offd", c["f"], c["data"], c["n"]))
         lines.append(proto_case("rhot", c["f"], c["data"], c["n"]))
+        lines.append(proto_case("offdgen", c["f"], c["data"], c["n"]))
     outs = common.driver_run(lines)
     for i, c in enumerate(cases):
-        m_off = common.parse_vals(outs[2 * i])
-        o = outs[2 * i + 1]
+        m_off = common.parse_vals(outs[3 * i])
+        m_gen = common.parse_vals(outs[3 * i + 2])
+        o = outs[3 * i + 1]
         m_rho = ("undef",) if o.strip() == "undef" else common.parse_vals(o)
         ctx.evaluations += 1
         ctx.count("stream:" + c["stream"])
         for op in set(F.ops(c["f"])):
             ctx.count("op:" + op)
         ctx.count("n=%d" % c["n"] if c["n"] <= 2 else "n>2")
-        v, d = check_case(ctx, c, m_off, m_rho)
+        v, d = check_case(ctx, c, m_off, m_rho, m_gen)
         if v is None and d is None:
             ctx.traces_validated += 1
             if len(ctx.samples) < 4 and F.depth(c["f"]) >= 3:
